@@ -8,17 +8,31 @@ mod cosm;
 mod gen;
 mod hist;
 mod net;
+mod ser;
 mod targeted;
 mod util;
 mod witness;
 
 fn main() {
     let args: Vec<String> = std::env::args().collect();
+    if args.len() >= 6 && args[1] == "C10CHILD" {
+        std::panic::set_hook(Box::new(|_| {}));
+        ser::c10_child(args[2].parse().unwrap(), args[3].parse().unwrap(), &args[4], &args[5]);
+        return;
+    }
+    if args.len() >= 3 && args[1] == "SER" {
+        ser::ser_child(&args[2]);
+        return;
+    }
     if args.len() < 5 {
         eprintln!("usage: adbharness <PROP> <seed> <n> <outdir>");
         std::process::exit(2);
     }
     let prop = args[1].as_str();
+    if prop == "SER" {
+        ser::ser_child(&args[2]);
+        return;
+    }
     if prop == "WITNESS" {
         // adbharness WITNESS <PROP> <known_findings.json> <outdir>
         std::panic::set_hook(Box::new(|_| {}));
@@ -43,6 +57,9 @@ fn main() {
         "C03" => c03::run(seed, n, &mut out, args.get(5).map(|s| s.as_str()).unwrap_or("quick")),
         "C16" => cosm::run_c16(seed, n, &mut out),
         "C17" => cosm::run_c17(seed, n, &mut out),
+        "C08" => ser::run_c08(seed, n, &mut out),
+        "C09" => ser::run_c09(seed, n, &mut out),
+        "C10" => ser::run_c10(seed, n, &mut out, args.get(5).map(|s| s.as_str()).unwrap_or("quick")),
         "C13" => targeted::run_c13(seed, n, &mut out),
         "C15" => targeted::run_c15(seed, n, &mut out),
         _ => {
